@@ -39,6 +39,6 @@ def run(ctx):
             bad.append((c, v, progflow.signature(c, v)))
     progflow.report(ctx, bad)
     # the same rules across import boundaries: one broken construct per imported file, unknown aliases, private names (spec/FamC09.tla, linked by TshModules)
-    imp = [c for c in ctx.tlc_family("FamC09", constants={"Tier": '"quick"'}, timeout=3000) if "/libneg/" in c["id"] or "/neg/" in c["id"]]
+    imp = [c for c in ctx.tlc_family("FamC09", constants={"Tier": '"quick"'}, timeout=3000) if "/libneg/" in c["id"] or "/neg/" in c["id"] or "/nameshape/" in c["id"]]
     c09.judge_cases(ctx, imp, "implink")
     return ctx.finish(rule=RULE, assumptions=ASSUME)
